@@ -133,7 +133,9 @@ def _proofs(mod, ctx):
         ctx.problems.append(dict(kind="proof", detail=f"unexpected axioms: {res['unexpected']}"))
         cov["discharged"] = 0
         return False
-    bad = coqrun.hygiene()
+    files = coqrun.closure([mod.PROPS_FILE, mod.RUN_MODULE.replace('.', '/') + '.v'])
+    cov['coq_files_in_closure'] = [os.path.relpath(f, coqrun.COQ) for f in files]
+    bad = coqrun.hygiene(files)
     if bad:
         ctx.problems.append(dict(kind="proof", detail=f"forbidden construct: {bad[:5]}"))
         cov["discharged"] = 0
